@@ -27,8 +27,8 @@ EXPLANATION = (
 ASSUMPTIONS = ["A1 z3 sound", "A2 numpy object-array semantics", "A5 networkx conversions faithful",
                "Van den Nest et al.: local-Clifford equivalence of graph states <=> LC-orbit membership; inside the bounds "
                "one direction is discharged by the solver (LC step => Q exists), the other is what lc_graph_operations must construct and is checked on its output"]
-BOUNDS = {"quick": {"pairs": "all ordered pairs n<=3", "local_comp_graph": "n<=5", "lemma": "n<=4"},
-          "thorough": {"pairs": "all ordered pairs n<=4", "local_comp_graph": "n<=6", "lemma": "n<=5"}}
+BOUNDS = {"quick": {"pairs": "all ordered pairs n<=3; constructed pairs (G,G), (G,LC_0 G) n=5; tableau second state n<=2 (+budgeted n=3)", "local_comp_graph": "n<=5 every vertex, n=11 six vertices (single path: the graph stays symbolic)", "lemma": "n<=4"},
+          "thorough": {"pairs": "all ordered pairs n<=4; constructed pairs n=5 every vertex, n=6 (G,G),(G,LC_0 G); tableau second state n<=3", "local_comp_graph": "n<=6 every vertex, n=8,11,12 six vertices", "lemma": "n<=5"}}
 OUTSIDE = ("Graph.local_complementation (pure networkx edge toggling); iso_equal_check / iso_graph_finder; n>=5 pairs; "
            "random mode's 1000-trial loop beyond the shared len(basis)<5 branch")
 
@@ -366,8 +366,8 @@ class LcCheckTableau(NxHarness):
 def plan(tier):
     q = tier == "quick"
     jobs = []
-    for n in ([2, 3, 4, 5] if q else [2, 3, 4, 5, 6]):
-        for v in range(n):
+    for n in ([2, 3, 4, 5, 11] if q else [2, 3, 4, 5, 6, 8, 11, 12]):
+        for v in (range(n) if n <= 6 else (0, 1, 2, n // 2, n - 2, n - 1)):
             jobs.append((LocalComp(n=n, v=v), {}))
     for n in ([2, 3, 4] if q else [2, 3, 4, 5]):
         for v in range(n):
